@@ -72,7 +72,7 @@ def binop_map(owner, parser_struct):
 ck.declare('G0_token_map_injective', 'all token kinds', 'each of the operators is produced by exactly one token kind, and the two parsers agree')
 ck.declare('G1_grouping', 'a OP1 b OP2 c, all operator pairs; both Pratt loops', 'the parse is (a OP1 b) OP2 c when level(OP1) >= level(OP2) and a OP1 (b OP2 c) otherwise; operands and operators keep their order')
 if T == 'thorough':
-    ck.declare('G2_grouping3', 'a OP1 b OP2 c OP3 d, all operator triples; ExprParser', 'in-order traversal preserved and every node binds at least as tightly as its parent on the left spine, strictly tighter on the right')
+    ck.declare('G2_grouping3', 'a OP1 b OP2 c OP3 d, all operator triples; both Pratt loops', 'in-order traversal preserved and every node binds at least as tightly as its parent on the left spine, strictly tighter on the right')
 maps = {'ExprParser': binop_map('ExprParser', 'ExprParser'), 'Parser': binop_map('Parser', 'Parser')}
 for who, mp in maps.items():
     ops_hit = sorted(str(v) for v in mp.values())
@@ -117,7 +117,7 @@ def well_grouped(t):
     return okk and well_grouped(l) and well_grouped(r)
 
 
-def pratt(owner, parser_struct, nops, oblig):
+def pratt(owner, parser_struct, nops, oblig, first=None):
     st = ex.new_state()
     kinds = []
     toks = []
@@ -128,6 +128,8 @@ def pratt(owner, parser_struct, nops, oblig):
             st.assume(z3.Or([k.disc == z3.BitVecVal(d, 64) for d in OPTOK]))
             kinds.append(k)
             toks.append(mk_token(st, k, 2 * i + 1))
+    if first is not None:
+        st.assume(kinds[0].disc == z3.BitVecVal(first, 64))       # one worker per first operator; together they cover OPTOK
     st.env['tokens'] = toks[1:]
     st.env['tokpos'] = 0
     p = Struct(parser_struct, {}, lazy='P')
@@ -162,7 +164,9 @@ def pratt(owner, parser_struct, nops, oblig):
         n_ok += 1
         if n_ok == 1:
             ck.sample({'obligation': oblig, 'tokens': expect_seq, 'tree': str(t)})
-    ck.notes.append(f'{owner}::parse_expr_bp, {nops} operators: {len(res)} paths')
+    if first is None:
+        ck.notes.append(f'{owner}::parse_expr_bp, {nops} operators: {len(res)} paths')
+    return len(res)
 
 
 var2sym_prefix = {'Minus': '-', 'Not': 'NOT', 'Tilde': '~'}
@@ -368,6 +372,10 @@ pratt_prefix('Parser', 'Parser')
 pratt('ExprParser', 'ExprParser', 2, 'G1_grouping')
 pratt('Parser', 'Parser', 2, 'G1_grouping')
 if T == 'thorough':
-    pratt('ExprParser', 'ExprParser', 3, 'G2_grouping3')
+    _jobs = [(o, d) for o in ('ExprParser', 'Parser') for d in OPTOK]
+    _n = ck.parallel(_jobs, lambda j: pratt(j[0], j[0], 3, 'G2_grouping3', first=j[1]), jobs=16)
+    for o in ('ExprParser', 'Parser'):
+        ck.notes.append(f'{o}::parse_expr_bp, 3 operators: {sum(n or 0 for (oo, _), n in zip(_jobs, _n) if oo == o)} paths '
+                        f'({len(OPTOK)} worker processes, one per first operator)')
 ck.functions += ['ExprParser::parse_expr_bp', 'ExprParser::parse_prefix', 'ExprParser::parse_postfix', 'ExprParser::current_binary_op',
                  'Parser::parse_expr_bp', 'Parser::current_binary_op']
